@@ -756,3 +756,23 @@ Theorem C12_parse_total_load_first_table_never_panics :
     fst (fst (load [payload])) <> 2.
 Proof. exact load_first_table_never_panics. Qed.
 Print Assumptions C12_parse_total_load_first_table_never_panics.
+
+
+(** A SEQUENCE of tables, MODULO what is not proved about the state ParseAML returns.  [INV] collects the hypotheses of
+    C12_parse_total_never_panics (with "every handle in the pool is below the next handle" for freshness); it holds for the pool of
+    CreateDefaultScopes (ds_INV).  [SEQ] asks, for each table in turn, the size hypotheses ([fits]: image_small and the quadratic
+    memory bound over the pool at that moment) and the residue [RES] about the state a successful ParseAML returned: root facts,
+    Method typing TM2, lead-less names in the free slots, []byte typing and the handle bound - the conjuncts of [INV] that are NOT yet
+    derived for the post-state ([R], valid indexes and slices-inside are derived).  Under these, loading any number of tables never
+    panics.  The missing lemmas are exactly "ParseAML re-establishes RES": TM2 and the root facts through resolveMethodCalls and
+    connectNonNamedObjArgs, lead-less names for the two children of a Scope directive through mergeScopeDirectives' free. *)
+Theorem C12_parse_total_load_sequence_never_panics_mod :
+  forall (payloads : list (list N)) (tree : T) (g : ghost) (earlier : list (list N)) (h : N),
+    INV tree g earlier h -> SEQ tree earlier h payloads -> fst (fst (load_tables tree earlier h payloads)) <> 2.
+Proof. exact load_tables_never_panics_mod. Qed.
+Print Assumptions C12_parse_total_load_sequence_never_panics_mod.
+
+Theorem C12_parse_total_load_never_panics_mod :
+  forall payloads : list (list N), SEQ ds_tree [] 1 payloads -> fst (fst (load payloads)) <> 2.
+Proof. exact load_never_panics_mod. Qed.
+Print Assumptions C12_parse_total_load_never_panics_mod.
